@@ -71,6 +71,17 @@ def attr_name_where(obj, pred, what):
     raise LookupError(f"{what}: no such attribute on {type(obj).__name__}")
 
 
+def _patch_function(patch, mod, real, new):
+    """replace the function `real` as module `mod` uses it: under whatever name it was imported into mod, else (the
+    module calls it through its home module) in the home module"""
+    import sys as _sys
+    hits = [k for k, v in vars(mod).items() if v is real]
+    for k in hits:
+        patch.set(mod, k, new)
+    if not hits:
+        patch.set(_sys.modules[real.__module__], real.__name__, new)
+
+
 def exc_result(e):
     return [9, EXC_CODES.get(type(e).__name__, 0)]
 
@@ -414,7 +425,7 @@ class CacheScenario(Scenario):
     files = [VC.__file__]
 
     def build(self):
-        self.patch.set(VC, "threading", sched.shim())
+        sched.patch_module_use(VC, threading, sched.shim(), self.patch.set)
         self.cache_inner = VC.LRUCache(cache_size=self.case["cap"], mark_on_update=bool(self.case.get("mark", 1)))
         self.cache = VC.SynchronizedCache(self.cache_inner)
         lk = lock_of(self.cache)
@@ -518,9 +529,10 @@ class TextScenario(Scenario):
                     with open(os.path.join(self.tmp, f"state{wid}.txt"), "w") as f:
                         f.write(text_content(c["contents"][wid], c["bad"][wid]))
         self._write(0)
-        self.patch.set(TF, "threading", sched.shim())
+        sched.patch_module_use(TF, threading, sched.shim(), self.patch.set)
         rec = self.rec
-        real_vffp = TF.version_for_file_path
+        import vinegar.utils.version as VV0
+        real_vffp = VV0.version_for_file_path
 
         import errno
         import vinegar.utils.version as VV
@@ -546,7 +558,7 @@ class TextScenario(Scenario):
                 finally:
                     VV.os = real_os
             return real_vffp(p)
-        self.patch.set(TF, "version_for_file_path", vffp)
+        _patch_function(self.patch, TF, real_vffp, vffp)
         scen = self
 
         def opener(*a, **k):
@@ -685,7 +697,7 @@ class StoreScenario(Scenario):
     files = [SS.__file__]
 
     def build(self):
-        self.patch.set(SS, "threading", sched.shim())
+        sched.patch_module_use(SS, threading, sched.shim(), self.patch.set)
         self.tmp = tempfile.mkdtemp(prefix="c19s")
         self.store = SS.DataStore(os.path.join(self.tmp, "db.sqlite"))
         lk = lock_of(self.store)
@@ -801,8 +813,8 @@ class YamlScenario(Scenario):
         for i in range(len(names)):
             self._write(i)
         sh = sched.shim()
-        self.patch.set(YT, "threading", sh) if hasattr(YT, "threading") else None
-        self.patch.set(VC, "threading", sh)
+        sched.patch_module_use(YT, threading, sh, self.patch.set)
+        sched.patch_module_use(VC, threading, sh, self.patch.set)
         rec = self.rec
         tmp = self.tmp
         def opener(path, *a, **k):
@@ -817,17 +829,19 @@ class YamlScenario(Scenario):
             return open(path, *a, **k)
         self.patch.set(YT, "open", opener)
         self.patch.set(JJ, "open", opener)
-        real_jj_vffp = JJ.version_for_file_path
+        import vinegar.utils.version as VV0
+        real_jj_vffp = VV0.version_for_file_path
 
         def jj_vffp(path):
             i = rec.me()
             if i is not None and os.path.basename(str(path)) != "top.yaml":
                 rec.file_stat(i, os.path.basename(str(path)), rec.total.get(i, 0) - 3)
             return real_jj_vffp(path)
-        self.patch.set(JJ, "version_for_file_path", jj_vffp)
-        ysh = types.SimpleNamespace(**{k: getattr(YT.yaml, k) for k in dir(YT.yaml) if not k.startswith("__")})
+        _patch_function(self.patch, JJ, real_jj_vffp, jj_vffp)
+        import yaml as real_yaml
+        ysh = types.SimpleNamespace(**{k: getattr(real_yaml, k) for k in dir(real_yaml) if not k.startswith("__")})
         ysh.safe_load = _memo_safe_load
-        self.patch.set(YT, "yaml", ysh)
+        sched.patch_module_use(YT, real_yaml, ysh, self.patch.set)      # `import yaml` or `from yaml import safe_load`
         cfg = {"root_dir": self.tmp, "template": None, "cache_size": 8}
         if c.get("engine") == "jinja":
             cfg = {"root_dir": self.tmp, "cache_size": 8}          # the default engine, template cache enabled
